@@ -1,7 +1,7 @@
 (* C13 — Loggers are goroutine-safe and lose nothing.  Property theorems (statements only; proofs in Proofs*.v). *)
 From Coq Require Import String List ZArith Bool Arith Lia.
 Import ListNotations.
-From GU Require Import C13.Base C13.Gen C13.Model C13.Proofs C13.ProofsMulti C13.ProofsRing.
+From GU Require Import C13.Base C13.Gen C13.Model C13.Proofs C13.ProofsMulti C13.ProofsAlias C13.ProofsRing.
 
 (* (1) The generated lock table (every access to a field of the receiver in every exported method of every struct of
    package logs, with the lock mode held): every run-phase mutation is under the exclusive lock and every run-phase
@@ -66,6 +66,27 @@ Theorem multi_delivers_all : forall (specs : list (bool * nat)) (Pl : list (list
   (forall t, gproj t (glog s) ++ mpending s t = mlogs_of (nth t Pl [])).
 Proof. exact multi_delivers_all_l. Qed.
 Print Assumptions multi_delivers_all.
+
+(* (5b) WHO the members are (complements (5), where the member list is the composite's own value).  Go slices over a
+   store of arrays; the caller passes a slice it OWNS (any content, any spare capacity) to the constructor and goes on
+   using it: for every script of constructions of any number of composites from that slice, Appends to them, writes
+   of the caller into its slice, appends of the caller to its slice, and Log calls — with constructors that copy
+   their argument (the code: Append / AddWriters onto a nil slice) every composite's member list is exactly what it
+   was given at construction plus its own Appends, and every Log delivers to exactly those: no member misses a
+   message, no non-member receives one. *)
+Theorem multi_members_are_its_own : forall (init : list nat) (cap : nat) (script : list aop),
+  let s := arun true (ainit init cap) script in
+  (forall c sl, a_comp s c = Some sl -> elems (a_st s) sl = a_own s c) /\ a_recv s = a_exp s.
+Proof. exact constructors_copy_members_l. Qed.
+Print Assumptions multi_members_are_its_own.
+
+(* A constructor that keeps the caller's slice instead (seeded change "no need to lock and copy") is refuted: two
+   composites built from one slice with spare capacity, one Append each — the first composite's new member is
+   overwritten by the second's. *)
+Theorem aliasing_constructor_refuted : exists init cap script,
+  a_recv (arun false (ainit init cap) script) <> a_exp (arun false (ainit init cap) script).
+Proof. exact aliasing_constructor_refuted_l. Qed.
+Print Assumptions aliasing_constructor_refuted.
 
 (* (6) Ring-buffered asynchronous writer, Set taken as ONE atomic step (see Model.v and (7)): for every ring size, every interleaving of
    producer Sets and reader TryNexts: what was delivered is a subsequence of what was sent (nothing duplicated,
